@@ -58,6 +58,133 @@ def bool_facts(t, val):
     return out
 
 
+def _const_bool(t):
+    if t in (("const", "true"), ("int", 1)):
+        return True
+    if t in (("const", "false"), ("int", 0)):
+        return False
+    return None
+
+
+def term_cases(t):
+    """[(class, facts, value term)] a value term can fall into; class is True/False for booleans, 'Some'/'None' for
+    Options. A term of unknown type is given all four classes."""
+    cb = _const_bool(t)
+    if cb is not None:
+        return [(cb, [], t)]
+    k = t[0]
+    if k == "agg" and t[1].endswith("Option::Some"):
+        return [("Some", [], t)]
+    if k == "agg" and t[1].endswith("Option::None"):
+        return [("None", [], t)]
+    if k == "un" and t[1] == "Not":
+        return [((not K) if isinstance(K, bool) else K, fs, t) for (K, fs, _) in term_cases(t[2])]
+    if k == "phi":
+        out = []
+        for o in t[1]:
+            out.extend(term_cases(o))
+        return out
+    if k == "call" and t[1] in ("bool::then", "bool::then_some") and len(t[2]) == 2:
+        return [("Some", bool_facts(t[2][0], True), t), ("None", bool_facts(t[2][0], False), t)]
+    return [(True, bool_facts(t, True), t), (False, bool_facts(t, False), t), ("Some", [("is_some", unref(t), True)], t),
+            ("None", [("is_some", unref(t), False)], t)]
+
+
+def _plain_local(op):
+    if op["k"] in ("copy", "move") and not op["place"]["p"]:
+        return op["place"]["l"]
+    return None
+
+
+def local_cases(ev, ctx, l, allow_multi=False, depth=0):
+    """Site based case split of the value of local l: [(class, facts that hold when the local got a value of that class)].
+    Follows copies, `!x`, `x?` and calls of crate-local functions (whose return value is split by its definition sites,
+    each with the guard facts of its block, expressed in the caller's terms). None when nothing is known."""
+    sc = site_cases(ev, ctx, l, allow_multi, depth)
+    if sc is None:
+        return None
+    out = []
+    for bb in sorted(sc):
+        out.extend(sc[bb])
+    return out
+
+
+def site_cases(ev, ctx, l, allow_multi=False, depth=0):
+    """{defining block: [(class, facts)]} for local l (see local_cases)"""
+    from terms import PURE, callee_model_key
+    body = ctx.body
+    if depth > 8 or (1 <= l <= body.arg_count):
+        return None
+    defs = [d for d in body.defs().get(l, []) if not body.blocks[d[0]]["cleanup"]]
+    if not defs or (len(defs) > 1 and not allow_multi):
+        return None
+    out = {}
+    for (bb, si, kind, payload) in defs:
+        base = list(block_facts(ev, ctx, bb))
+        sub = None
+        if kind == "assign":
+            rv = payload
+            if rv["k"] == "use":
+                pl = _plain_local(rv["op"])
+                if pl is not None:
+                    sub = local_cases(ev, ctx, pl, False, depth + 1)
+            elif rv["k"] == "unop" and rv["op"] == "Not":
+                pl = _plain_local(rv["a"])
+                if pl is not None:
+                    sub = local_cases(ev, ctx, pl, False, depth + 1)
+                    if sub is not None:
+                        sub = [((not K) if isinstance(K, bool) else K, fs, None) for (K, fs, v) in sub]
+            if sub is None:
+                sub = term_cases(ev.rvalue(ctx, rv))
+        elif kind == "call":
+            c = body.callee(bb)
+            model = PURE.get(callee_model_key(c)) if (c is not None and not c.indirect) else None
+            if model == "Try::branch" and payload["args"]:
+                pl = _plain_local(payload["args"][0])
+                if pl is not None:
+                    sub = local_cases(ev, ctx, pl, False, depth + 1)
+                    if sub is not None:
+                        sub = [({"Some": "Continue", "None": "Break"}.get(K, K), fs, None) for (K, fs, v) in sub]
+            if sub is None:
+                nctx = ev.callee_ctx(ctx, bb)
+                if nctx is not None:
+                    sub = local_cases(ev, nctx, 0, True, depth + 1)
+            if sub is None:
+                sub = term_cases(ev.call(ctx, bb, payload))
+                sub = sub + [({"Some": "Continue", "None": "Break"}[K], fs, None) for (K, fs, v) in sub if K in ("Some", "None")]
+        else:
+            return None
+        lst = out.setdefault(bb, [])
+        for (K, fs, v) in sub:
+            lst.append((K, base + [f for f in fs if f not in base], v))
+    return out
+
+
+def class_facts(cases, K):
+    """facts common to all cases of class K ([] when there is none)"""
+    sel = [c[1] for c in cases if type(c[0]) is type(K) and c[0] == K]
+    if not sel:
+        return []
+    return [f for f in sel[0] if all(f in s for s in sel[1:])]
+
+
+def _site_facts(ev, ctx, bb, l, K):
+    """facts implied by local l (defined before the switch ending block bb) having a value of class K"""
+    body = ctx.body
+    defs = [d for d in body.defs().get(l, []) if not body.blocks[d[0]]["cleanup"]]
+    if len(defs) != 1 or defs[0][0] not in body.dominators().get(bb, set()) | {bb}:
+        return []
+    if getattr(ev, "_inprogress", None):
+        return []
+    key = ("sitecases", l)
+    cases = ctx.memo.get(key)
+    if cases is None:
+        cases = local_cases(ev, ctx, l) or []
+        ctx.memo[key] = cases
+    known = block_facts(ev, ctx, bb)  # what holds before the edge is taken is not news
+    return [f for f in class_facts(cases, K) if f not in known]
+
+
 def switch_facts(ev, ctx, bb, target_vals, is_otherwise, listed_vals):
     """facts for taking an edge of the switch terminating block bb.
     target_vals: values leading to the taken target (empty for pure otherwise); listed_vals: all listed values."""
@@ -90,6 +217,13 @@ def switch_facts(ev, ctx, bb, target_vals, is_otherwise, listed_vals):
                 possible = None
         if possible is None:
             return out
+        if len(possible) == 1 and discr["k"] in ("copy", "move") and not discr["place"]["p"]:
+            # `_d = discriminant(_x)`: what is known from where _x got its value
+            for (dbb, si, kind, rv) in body.defs().get(discr["place"]["l"], []):
+                if kind == "assign" and rv["k"] == "discr" and not rv["place"]["p"]:
+                    for f in _site_facts(ev, ctx, bb, rv["place"]["l"], list(possible)[0]):
+                        if f not in out:
+                            out.append(f)
         if X[0] == "call" and X[1] == "cmp":
             a, b = unref(X[2][0]), unref(X[2][1])
             p = frozenset(possible)
@@ -98,28 +232,40 @@ def switch_facts(ev, ctx, bb, target_vals, is_otherwise, listed_vals):
                  frozenset(["Less", "Greater"]): "ne"}
             if p in m:
                 out.append(norm_rel(m[p], a, b))
+        elif X[0] == "call" and X[1] == "Try::branch" and possible in ({"Continue"}, {"Break"}):
+            out.append(("is_some", unref(X[2][0]), possible == {"Continue"}))
         else:
             if possible == {"Some"}:
                 out.append(("is_some", X, True))
             elif possible == {"None"}:
                 out.append(("is_some", X, False))
+            if X[0] == "call" and X[1] in ("bool::then", "bool::then_some") and possible in ({"Some"}, {"None"}):
+                out.extend(bool_facts(X[2][0], possible == {"Some"}))
             else:
                 out.append(("variant_in", X, frozenset(possible)))
         return out
     # bool
     dty = t.get("discr_ty", "")
     if dty == "bool":
+        val = None
         if is_otherwise:
             # listed are the excluded values (normally [0])
             if set(listed_vals) == {0}:
-                out.extend(bool_facts(T, True))
+                val = True
             elif set(listed_vals) == {1}:
-                out.extend(bool_facts(T, False))
+                val = False
         else:
             if set(target_vals) == {0}:
-                out.extend(bool_facts(T, False))
+                val = False
             elif set(target_vals) == {1}:
-                out.extend(bool_facts(T, True))
+                val = True
+        if val is not None:
+            out.extend(bool_facts(T, val))
+            pl = _plain_local(discr)
+            if pl is not None:
+                for f in _site_facts(ev, ctx, bb, pl, val):
+                    if f not in out:
+                        out.append(f)
         return out
     # integers
     T = unref(T)
@@ -139,7 +285,7 @@ def block_facts(ev, ctx, bb, unwind=False):
         return ctx.memo[key]
     dom = body.dominators(unwind).get(bb, set())
     preds = body.preds(unwind)
-    out = []
+    out = list(getattr(ctx, "entry_facts", ()) or ())
     for d in sorted(dom):
         t = body.term(d)
         if t["k"] == "switch":
@@ -186,6 +332,21 @@ def block_facts(ev, ctx, bb, unwind=False):
                     out.extend(bool_facts(c, bool(t["expected"])))
     if not getattr(ev, "_inprogress", None):
         ctx.memo[key] = out  # (facts computed in the middle of a local's evaluation may contain cycle markers)
+    return out
+
+
+def full_block_facts(ev, ctx, bb):
+    """block facts of bb plus those of every call site up the chain of inlined activations"""
+    out = list(block_facts(ev, ctx, bb))
+    c = ctx
+    guard = 0
+    while getattr(c, "parent", None) is not None and guard < 12:
+        pc, pbb = c.parent
+        for f in block_facts(ev, pc, pbb):
+            if f not in out:
+                out.append(f)
+        c = pc
+        guard += 1
     return out
 
 
@@ -276,6 +437,15 @@ class Prover:
         if a[0] == "phi":
             if all(self._opt(a, x).le(x, b, depth + 1) for x in a[1]):
                 return True
+        if a[0] == "bin" and a[1] == "Add":
+            # x + min(n, L - x) <= L (L - x not underflowing is a separate obligation)
+            for x, y in ((a[2], a[3]), (a[3], a[2])):
+                y = unref(y)
+                if y[0] == "call" and y[1] == "min" and len(y[2]) == 2:
+                    for d in y[2]:
+                        d = unref(d)
+                        if d[0] == "bin" and d[1] == "Sub" and unref(d[3]) == unref(x) and self.le(d[2], b, depth + 1):
+                            return True
         if a[0] == "bin" and a[1] == "Sub":
             # x - y <= x (when it does not underflow, which is a separate obligation)
             if self.le(a[2], b, depth + 1):
